@@ -19,6 +19,9 @@ type Subscription struct {
 	sub   Subscriber
 	field *Field
 	args  map[string]interface{}
+
+	// etype is the type of the events, the type of the subscription field.
+	etype Type
 }
 
 // NewSubscription creates a new subscription. It should be called in a
@@ -32,5 +35,7 @@ func NewSubscription(sub Subscriber, field *Field, args map[string]interface{}) 
 }
 
 func (sub *Subscription) prep(root *Root) {
-	sub.field.ConType = root.getFieldType(sub.field.ConType, sub.field.Name)
+	// The field belongs to the request. It is left as it is so that the
+	// request can be resolved again for another subscriber.
+	sub.etype = root.getFieldType(sub.field.ConType, sub.field.Name)
 }
